@@ -69,6 +69,15 @@ STRENGTHENED.update({
     "C19-i": "lazy cubes whose windows are all collected first and evaluated afterwards in one dask.compute",
     "C19-j": "int16 / uint8 / int32 cubes whose window sums exceed the storage dtype",
     "C20-i": "template, labels and observations handed over as strided views"})
+STRENGTHENED.update({
+    "C02-k": "sub-check 'gapfill_robust': the band of the robust GCV variants on gappy series (levels below / across zero emphasised) is held to the set-valued robust reference model on the valid cells only - a placeholder swap cannot see a missing cell that is treated as an observation of a fixed value",
+    "C03-k": "missing cells of float series / cubes stored as NaN or +-inf next to a finite nodata value in C03's kernel and accessor generators (the kernel must hand its input buffer back unchanged)",
+    "C07-k": "sub-check 'groups': 2-3 group sub-series with different zero shares, nodata cells and windows interleaved into one pixel; every group's cells are held to the definition evaluated on that group alone (gammastd_grp kernel and spi(groups=))",
+    "C12-k": "rainfall cubes of C12 keep their nodata cells and a third of their negative cells (they were all made non-negative before), so pixels with cells that are not observations sit next to ordinary pixels in every block",
+    "C12-l": "sub-check 'large': cubes of more than 2^20 cells per operation - 1 thread vs all threads (twice) vs dask blocks must be bit-identical",
+    "C13-k": "smoother gufuncs get nodata values the int16 data cannot hold whose truncation (x.5) or wrap-around (x+65536) is a valid cell's value (a third of the cases)",
+    "C15-k": "series class 'narrow band on a high level' (a few counts of variation at |level| 12000..32000) in the reference sub-check and pure level shifts of 15000..30000 in the affine relation",
+    "C20-l": "sub-check 'joint': two lazy whitint results of one dask cube under two labelings with equally many periods evaluated in one dask.compute"})
 FIRST = {k: "missed" for k in STRENGTHENED}  # result of the first evaluation, before the strengthening the seed prompted
 SUPERSEDED = {
     "C12-j": "superseded: confirmed and caught on hdc-algo 2da843a; it rewrote the dask key of zonal.mean, the line that the repair of D17 (0318712) now owns, so the patch no longer applies to the repaired tree; at its own base commit it is caught by C12's joint sub-check",
